@@ -14,6 +14,7 @@ pub mod c12;
 pub mod c13;
 pub mod c14;
 pub mod c15;
+pub mod c16;
 pub mod c19;
 pub mod c20;
 
@@ -43,6 +44,7 @@ pub fn all() -> Vec<Prop> {
         Prop { id: "C04", run: c04::run, subs: c04::subs, rule: c04::RULE, assumptions: c04::ASSUMPTIONS },
         Prop { id: "C19", run: c19::run, subs: c19::subs, rule: c19::RULE, assumptions: c19::ASSUMPTIONS },
         Prop { id: "C15", run: c15::run, subs: c15::subs, rule: c15::RULE, assumptions: c15::ASSUMPTIONS },
+        Prop { id: "C16", run: c16::run, subs: c16::subs, rule: c16::RULE, assumptions: c16::ASSUMPTIONS },
     ]
 }
 
